@@ -209,6 +209,35 @@ impl Prop for PWalk {
     }
 
     fn gen(&mut self, rng: &mut Rng, idx: usize, tier: &str) -> Value {
+        if self.flavour == "C02" && idx % 8 == 5 {
+            // one directory reached several times under one starting point: directly and through one or two links
+            // (a link farm); under -L everything below it is visited once per way of reaching it
+            let mut tree: Vec<Value> = vec![json!({"parent": 0, "name": str_to_json("top"), "kind": "d", "target": 0}),
+                                            json!({"parent": 1, "name": str_to_json(*rng.pick(&["m", "a", "zz"])), "kind": "d", "target": 0})];
+            let real = 2usize;
+            for k in 0..1 + rng.below(3) {
+                let kind = if rng.chance(1, 3) { "d" } else { "f" };
+                tree.push(json!({"parent": real, "name": str_to_json(&format!("c{}", k)), "kind": kind, "target": 0}));
+            }
+            let sub = tree.len();
+            if tree[sub - 1]["kind"] == "d" {
+                tree.push(json!({"parent": sub, "name": str_to_json("g"), "kind": "f", "target": 0}));
+            }
+            // an unrelated directory that holds the links (or the links lie next to the directory itself)
+            tree.push(json!({"parent": 1, "name": str_to_json(*rng.pick(&["b", "n", "zy"])), "kind": "d", "target": 0}));
+            let holder = tree.len();
+            for nm in ["l1", "A", "zl"].iter().take(1 + rng.below(3)) {
+                let parent = if rng.chance(1, 2) { holder } else { 1 };
+                tree.push(json!({"parent": parent, "name": str_to_json(nm), "kind": "l", "target": real}));
+            }
+            let mode = *rng.pick(&["L", "L", "follow", "P", "H"]);
+            let mut cfg = json!({"mode": if mode == "follow" { "L" } else { mode }, "min": *rng.pick(&[0u64, 0, 1, 2]), "max": *rng.pick(&[NOMAX, NOMAX, 3, 4]),
+                                 "depth": rng.chance(1, 4), "sorted": rng.chance(2, 3), "prune": []});
+            if mode == "follow" {
+                cfg["modeflag"] = json!("follow");
+            }
+            return json!({"tree": tree, "roots": [{"spell": str_to_json("top"), "node": 1}], "cfg": cfg, "form": rng.below(30)});
+        }
         let maxn = if tier == "thorough" { 40 } else { 22 };
         let n = 1 + rng.below(if idx % 7 == 0 { maxn } else { 10 });
         // (C18: also a name with a newline in it - as a starting point it can only come from a -files0-from list or be quoted)
